@@ -293,6 +293,11 @@ Print Assumptions C16_unidentified_route.
 Print Assumptions C16_paired_mates_together.
 Print Assumptions C16_annotate_all_edits.
 Print Assumptions C16_annotate_selection.
+(** --rename-tag K=K (an attribute renamed to its own name) leaves every record as it is, whatever the other pairs of the
+    same kind are: no attribute is lost. *)
+Theorem C16_rename_self_identity : forall (l : list (string * string)) (r : arec),
+  forallb (fun no : string * string => String.eqb (fst no) (snd no)) l = true -> e_rename l r = r.
+Proof. exact rename_self_identity. Qed.
 Print Assumptions C16_annotate_untouched.
 Print Assumptions C16_annotate_seq_id_untouched.
 Print Assumptions C16_annotate_untouched_ext.
@@ -305,3 +310,4 @@ Print Assumptions C16_filteron_batches.
 Print Assumptions C16_filteron_any_schedule.
 Print Assumptions C16_distribute_any_arrival.
 Print Assumptions C16_divide_any_arrival.
+Print Assumptions C16_rename_self_identity.
